@@ -35,15 +35,17 @@ def run(tier, seed):
     traces = []
     plans = [("mem", 0, 20), ("mem", 1, 12), ("kv", 0, 12), ("kv", 1, 6)] if quick else \
             [("mem", 0, 40), ("mem", 1, 25), ("kv", 0, 30), ("kv", 1, 15)]
-    for i, (cfg, nofw, progs) in enumerate(plans):
+    plans = [p + (0,) for p in plans] + ([("mem", 1, 12, 1), ("mem", 0, 8, 1)] if quick else
+                                          [("mem", 1, 40, 1), ("mem", 0, 30, 1), ("kv", 1, 20, 1)])
+    for i, (cfg, nofw, progs, ext) in enumerate(plans):
         tr = os.path.join(wd, f"cancel_{i}_{cfg}.ndjson")
         vp.run([os.path.join(bd, "eng_cancel"), "--cfg", cfg, "--nofw", str(nofw), "--progs", str(progs),
-                "--seed", str(seed * 10 + i), "--out", tr, "--cases", tr + ".cases"], timeout=3000)
+                "--ext", str(ext), "--seed", str(seed * 10 + i), "--out", tr, "--cases", tr + ".cases"], timeout=3000)
         traces.append({"trace": tr, "cases": tr + ".cases", "origin": f"{cfg} nofw={nofw}"})
     summary = ec.collect(PID, traces, verdict, known, "mem")
     baseline_same = ec.finish_candidates(PID, verdict, summary, wd, "eng_cancel", [])
     rc = verdict.finish()
-    faults = {"cancel": 0, "cancel_commit": 0, "panic": 0}
+    faults = {"cancel": 0, "cancel_commit": 0, "panic": 0, "cancel_refresh": 0}
     sample = []
     for t in traces:
         for l in open(t["cases"]):
